@@ -1,6 +1,7 @@
 package statesync
 
 import (
+	"bytes"
 	"context"
 	"fmt"
 	"strings"
@@ -184,6 +185,12 @@ func (s *lightClientStateProvider) State(ctx context.Context, height uint64) (sm
 	if err != nil {
 		return sm.State{}, fmt.Errorf("unable to fetch consensus parameters for height %v: %w",
 			nextLightBlock.Height, err)
+	}
+	// The RPC client verifies the params against the header of the height the server labels its
+	// answer with, which need not be the height asked for: compare them with the header we verified.
+	if cH := types.HashConsensusParams(result.ConsensusParams); !bytes.Equal(cH, currentLightBlock.ConsensusHash) {
+		return sm.State{}, fmt.Errorf("consensus params (returned for height %v) hash %X do not match consensus hash %X of verified header %v",
+			result.BlockHeight, cH, currentLightBlock.ConsensusHash, currentLightBlock.Height)
 	}
 	state.ConsensusParams = result.ConsensusParams
 	state.LastHeightConsensusParamsChanged = currentLightBlock.Height
